@@ -218,6 +218,14 @@ output:
  "S3":{"type":"object","properties":{"u":{"type":"string"},"v":{"type":"string"},"w":{"type":"string"}}},
  "C1":{"type":"string","const":"one"},"C2":{"type":"integer","const":2},"C3":{"type":"boolean","const":true}
 }}`,
+			"passes/hints.yaml": `passes:
+  - hint_object:
+      object: jay.S1
+      hints: {s_one: 1, s_two: two, s_three: [3]}
+  - hint_object:
+      object: jay.S2
+      hints: {t_one: 1, t_two: two}
+`,
 			"tmpl/extra/NOTES.md": `{{ range $k, $v := .Extra }}{{ $k }}={{ $v }};{{ end }} {{ range .Packages }}{{ . }},{{ end }}`,
 			"repo/common/README.md": `{{ range $k, $v := .Extra }}{{ $k }}={{ $v }};{{ end }}`,
 			"repo/go/GO.md":         `go {{ .Extra.first }}`,
@@ -229,6 +237,8 @@ output:
   c: '%b%-three'
 inputs:
   - jsonschema: {path: '%__config_dir%/in/j.json', package: jay}
+transformations:
+  schemas: ['%__config_dir%/passes/hints.yaml']
 output:
   directory: './out/%l'
   types: true
@@ -246,6 +256,286 @@ output:
     - typescript: {packages_import_map: {alpha: '%a%/alpha', beta: '%b%/beta'}}
     - go: {package_root: gen, generate_json_marshaller: true, extra_files_templates: ['%__config_dir%/tmpl/extra']}
     - python: {generate_json_marshaller: true}
+`,
+		}},
+		// map-valued defaults (the JSON Schema front-end drops them, CUE keeps them),
+		// `any` defaults holding objects, lists of maps: every language prints them
+		{Name: "cuemaps", Reduced: true, Files: map[string]string{
+			"in/cuemaps/schema.cue": `package cuemaps
+
+Root: {
+	conf: {[string]: string} | *{x: "1", y: "2", z: "3"}
+	limits?: {[string]: int64} | *{low: 1, high: 2}
+	nested: {[string]: {[string]: string}} | *{a: {k: "v", l: "w"}, b: {m: "x"}}
+	rows: [...{[string]: int64}] | *[{a: 1, b: 2}, {c: 3, d: 4}]
+	inner: Inner | *{first: "f", second: "s", third: {p: "1", q: "2"}}
+	free: _ | *{one: 1, two: "2"}
+}
+
+Inner: {
+	first: string
+	second: string
+	third: {[string]: string}
+}
+`,
+			"pipeline.yaml": `inputs:
+  - cue: {entrypoint: '%__config_dir%/in/cuemaps'}
+output:
+  directory: './out/%l'
+  types: true
+  builders: true
+  converters: true
+  languages:
+    - typescript: {}
+    - go: {package_root: gen, generate_json_marshaller: true}
+    - python: {generate_json_marshaller: true}
+    - java: {package_path: com.example}
+    - php: {namespace_root: Ex}
+    - jsonschema: {}
+    - openapi: {}
+`,
+		}},
+		// discriminated unions with renamed branches (explicit OpenAPI mappings make the Go
+		// output ill-formed on the unchanged tree: known finding of C05), intersections with hinted
+		// objects (Java removes them), lists of unions in builders/converters
+		{Name: "mappings", Files: map[string]string{
+			"in/api.json": `{"openapi":"3.0.0","info":{"title":"t","version":"1"},"paths":{},"components":{"schemas":{
+ "Root":{"type":"object","required":["pet"],"properties":{"pet":{"oneOf":[{"$ref":"#/components/schemas/Cat"},{"$ref":"#/components/schemas/Dog"},{"$ref":"#/components/schemas/Eel"}],"discriminator":{"propertyName":"type"}},"pets":{"type":"array","items":{"oneOf":[{"$ref":"#/components/schemas/Cat"},{"$ref":"#/components/schemas/Dog"}],"discriminator":{"propertyName":"type"}}},"others":{"type":"array","items":{"oneOf":[{"$ref":"#/components/schemas/Dog"},{"$ref":"#/components/schemas/Eel"}],"discriminator":{"propertyName":"type"}}},"mixed":{"type":"array","items":{"oneOf":[{"type":"string"},{"type":"integer"},{"type":"boolean"}]}}}},
+ "Cat":{"type":"object","required":["type"],"properties":{"type":{"type":"string","enum":["cat"]},"lives":{"type":"integer"}}},
+ "Dog":{"type":"object","required":["type"],"properties":{"type":{"type":"string","enum":["dog"]},"name":{"type":"string"}}},
+ "Eel":{"type":"object","required":["type"],"properties":{"type":{"type":"string","enum":["eel"]},"volts":{"type":"integer"}}},
+ "Base":{"type":"object","properties":{"id":{"type":"string"}}},
+ "Derived":{"allOf":[{"$ref":"#/components/schemas/Base"},{"type":"object","properties":{"more":{"type":"string"}}}]}
+}}}`,
+			"passes/common.yaml": `passes:
+  - hint_object:
+      object: api.Base
+      hints:
+        b_one: 1
+        b_two: two
+        b_three: [3]
+  - hint_object:
+      object: api.Derived
+      hints:
+        d_one: 1
+        d_two: two
+  - rename_object:
+      from: api.Cat
+      to: Kitty
+  - rename_object:
+      from: api.Eel
+      to: Moray
+`,
+			// two lists of unions appended branch by branch: the converter keeps
+			// such options per assignment path
+			"in/zoo.json": `{"$schema":"http://json-schema.org/draft-07/schema#","$ref":"#/definitions/Zoo","definitions":{
+ "Zoo":{"type":"object","properties":{"pets":{"type":"array","items":{"oneOf":[{"$ref":"#/definitions/Cat"},{"$ref":"#/definitions/Dog"}]}},"others":{"type":"array","items":{"oneOf":[{"$ref":"#/definitions/Dog"},{"$ref":"#/definitions/Eel"}]}},"more":{"type":"array","items":{"oneOf":[{"$ref":"#/definitions/Cat"},{"$ref":"#/definitions/Eel"}]}}}},
+ "Cat":{"type":"object","required":["type"],"properties":{"type":{"type":"string","const":"cat"},"lives":{"type":"integer"}}},
+ "Dog":{"type":"object","required":["type"],"properties":{"type":{"type":"string","const":"dog"},"name":{"type":"string"}}},
+ "Eel":{"type":"object","required":["type"],"properties":{"type":{"type":"string","const":"eel"},"volts":{"type":"integer"}}}
+}}`,
+			"veneers/zoo.yaml": `language: all
+package: zoo
+options:
+  - array_to_append: {by_name: Zoo.pets}
+  - array_to_append: {by_name: Zoo.others}
+  - array_to_append: {by_name: Zoo.more}
+  - disjunction_as_options: {by_name: Zoo.pets}
+  - disjunction_as_options: {by_name: Zoo.others}
+  - disjunction_as_options: {by_name: Zoo.more}
+`,
+			"pipeline.yaml": `inputs:
+  - openapi: {path: '%__config_dir%/in/api.json', package: api}
+  - jsonschema: {path: '%__config_dir%/in/zoo.json', package: zoo}
+transformations:
+  schemas: ['%__config_dir%/passes/common.yaml']
+  builders: ['%__config_dir%/veneers']
+output:
+  directory: './out/%l'
+  types: true
+  builders: true
+  converters: true
+  api_reference: true
+  languages:
+    - go: {package_root: gen, generate_json_marshaller: true, generate_strict_unmarshaller: true, generate_equal: true}
+    - java: {package_path: com.example, generate_json_marshaller: true}
+    - python: {generate_json_marshaller: true}
+    - typescript: {}
+    - jsonschema: {}
+    - openapi: {}
+`,
+		}},
+		// panel plugins composed into a dashboard panel builder: one composed builder per
+		// plugin identifier
+		{Name: "compose", Files: map[string]string{
+			"schemas/dashboard/dashboard.cue": `package dashboard
+
+Panel: {
+	type: string
+	title?: string
+	options?: _
+	fieldConfig?: _
+}
+`,
+			"schemas/timeseries/timeseries.cue": `package timeseries
+
+Options: {
+	showLegend: bool
+	lineWidth?: int32
+}
+FieldConfig: {
+	unit?: string
+}
+`,
+			"schemas/logs/logs.cue": `package logs
+
+Options: {
+	wrapLines?: bool
+	dedup?: "none" | "exact"
+}
+`,
+			"schemas/table/table.cue": `package table
+
+Options: {
+	showHeader?: bool
+}
+FieldConfig: {
+	align?: string
+}
+`,
+			"veneers/compose.yaml": `language: all
+package: composed
+builders:
+  - compose:
+      by_variant: panelcfg
+      source_builder_name: dashboard.Panel
+      plugin_discriminator_field: type
+      composition_map: {Options: options, FieldConfig: fieldConfig}
+      composed_builder_name: Panel
+`,
+			"pipeline.yaml": `inputs:
+  - cue: {entrypoint: '%__config_dir%/schemas/dashboard'}
+  - cue:
+      entrypoint: '%__config_dir%/schemas/timeseries'
+      metadata: {kind: composable, variant: panelcfg, identifier: timeseries}
+  - cue:
+      entrypoint: '%__config_dir%/schemas/logs'
+      metadata: {kind: composable, variant: panelcfg, identifier: logs}
+  - cue:
+      entrypoint: '%__config_dir%/schemas/table'
+      metadata: {kind: composable, variant: panelcfg, identifier: table}
+transformations:
+  builders: ['%__config_dir%/veneers']
+output:
+  directory: './out/%l'
+  types: true
+  builders: true
+  converters: true
+  api_reference: true
+  languages:
+    - go: {package_root: gen, generate_json_marshaller: true}
+    - python: {generate_json_marshaller: true}
+    - typescript: {}
+    - java: {package_path: com.example}
+    - php: {namespace_root: Ex}
+`,
+		}},
+		// CUE libraries whose import paths nest (`…/common` and `…/common/units`)
+		{Name: "cuelibs", Reduced: true, Files: map[string]string{
+			"libs/common/common.cue": `package common
+
+Base: {
+	id: string
+}
+`,
+			"libs/units/units.cue": `package units
+
+Unit: "s" | "ms"
+Span: {
+	amount: int64
+	unit: Unit
+}
+`,
+			"in/app/app.cue": `package app
+
+import (
+	"example.com/lib/common"
+	"example.com/lib/common/units"
+)
+
+Root: {
+	base: common.Base
+	span: units.Span
+	unit?: units.Unit
+}
+`,
+			"pipeline.yaml": `inputs:
+  - cue: {entrypoint: '%__config_dir%/libs/common'}
+  - cue: {entrypoint: '%__config_dir%/libs/units'}
+  - cue:
+      entrypoint: '%__config_dir%/in/app'
+      cue_imports:
+        - '%__config_dir%/libs/common:example.com/lib/common'
+        - '%__config_dir%/libs/units:example.com/lib/common/units'
+output:
+  directory: './out/%l'
+  types: true
+  languages:
+    - go: {package_root: gen}
+    - typescript: {}
+    - python: {}
+`,
+		}},
+		// a builder merged into another with chained option renames (every map-typed
+		// setting of the rule files holds >= 2 entries somewhere in these scenarios), and
+		// unions of constants that overlap
+		{Name: "merge", Reduced: true, Files: map[string]string{
+			"in/demo/demo.cue": `package demo
+
+A: "a" | "b"
+B: "b" | "c"
+C: A | B
+D: B | A | "d"
+
+Header: {
+	name: string
+	title: string
+	subtitle: string
+}
+
+Dashboard: {
+	uid: string
+	header: Header
+	c: C
+	d?: D
+}
+`,
+			"veneers/demo.yaml": `language: all
+package: demo
+builders:
+  - merge_into:
+      destination: Dashboard
+      source: Header
+      under_path: header
+      rename_options:
+        name: title
+        title: description
+        subtitle: name
+`,
+			"pipeline.yaml": `inputs:
+  - cue: {entrypoint: '%__config_dir%/in/demo'}
+transformations:
+  builders: ['%__config_dir%/veneers']
+output:
+  directory: './out/%l'
+  types: true
+  builders: true
+  languages:
+    - go: {package_root: gen}
+    - python: {}
+    - typescript: {}
+    - java: {package_path: com.example}
+    - php: {namespace_root: Ex}
 `,
 		}},
 		{Name: "small", Reduced: true, Files: map[string]string{
